@@ -32,6 +32,7 @@ fn s(name: &str, ops: Vec<Op>) -> Scen {
 /// Hand-picked scenarios, each safety-consistent per DESIGN.md A.6.
 pub fn curated() -> Vec<Scen> {
     vec![
+        s("fast-final-and-final-without-notar", vec![ff(1, A), fin(1), link(1, A, 0, 0), ff(2, A), fin(2), link(2, A, 1, A), skip(3)]),
         s("ff-chain-1-2-3", vec![ff(1, A), ff(2, A), ff(3, A), link(1, A, 0, 0), link(2, A, 1, A), link(3, A, 2, A)]),
         s("slow-final-with-gap", vec![notar(1, A), fin(1), skip(2), ff(3, A), link(3, A, 1, A), link(1, A, 0, 0), Op::Wait(4)]),
         s(
